@@ -2,6 +2,7 @@ package ipc
 
 import (
 	"fmt"
+	"go/constant"
 	"go/token"
 	"go/types"
 	"sort"
@@ -474,4 +475,527 @@ func ruleShimSessionIDs(c *Ctx, p *Prog, rule string) {
 		}
 	}
 	c.Check(rule, "open:reported-id-is-stored-key", p, st.Pos(), ok, "the ID returned to the client is the key the connection is stored under", "the session ID returned to the client is not the key under which the connection was stored")
+}
+
+// rulePooledMemory: no sync.Pool traffic in the given packages. Buffers that
+// carry request/response/message bytes across calls or goroutines must be
+// owned by the call; a pooled buffer that is put back while a slice of it is
+// still referenced lets another request overwrite it. Ownership of pooled
+// memory is not analysed here, so any use is reported (fail closed).
+func rulePooledMemory(c *Ctx, p *Prog, rule string, pkgs ...string) {
+	n := 0
+	var hits []ssa.Instruction
+	for _, pk := range pkgs {
+		for _, fn := range p.FuncsIn(pk) {
+			EachInstr(fn, func(i ssa.Instruction) {
+				if CallOf(i) != nil {
+					n++
+				}
+				if IsCall(i, "(*sync.Pool).Get", "(*sync.Pool).Put") {
+					hits = append(hits, i)
+				}
+			})
+		}
+	}
+	c.Check(rule, "no-pooled-buffers:"+strings.Join(pkgs, ","), p, posOf(hits), len(hits) == 0 && n > 20, fmt.Sprintf("%d call sites inspected: no sync.Pool Get/Put — byte buffers are owned by the call that fills them", n), fmt.Sprintf("sync.Pool is used at %s: a pooled buffer that is put back while a slice of it is still referenced (a parsed body reader, a partially consumed message, a rendered page) is overwritten by a concurrent request; ownership of pooled memory is not analysed, so this is reported", posStr(p, firstOf(hits))))
+}
+
+// ruleReverseProxyFields: the backend-facing ReverseProxy of agent.hostProxy
+// only has Transport, FlushInterval and ModifyResponse set.
+func ruleReverseProxyFields(c *Ctx, p *Prog, rule string) {
+	hp := c.need(p, rule, "agent.hostProxy")
+	if hp == nil {
+		return
+	}
+	allowed := map[string]string{"Transport": "transport choice", "FlushInterval": "streaming (C05)", "ModifyResponse": "response-side shim injection (C14)"}
+	n := 0
+	for _, fn := range WithClosures(hp) {
+		EachInstr(fn, func(i ssa.Instruction) {
+			st, ok := i.(*ssa.Store)
+			if !ok {
+				return
+			}
+			base, f, ok := FieldAddrOf(st.Addr)
+			if !ok || NamedType(base.Type()) != "net/http/httputil.ReverseProxy" {
+				return
+			}
+			n++
+			_, okf := allowed[f]
+			c.Check(rule, "hostProxy:ReverseProxy."+f, p, st.Pos(), okf, "allowed override: "+allowed[f], "ReverseProxy."+f+" is overridden: requests/responses no longer pass the stock single-host director and transport defaults (e.g. a Director that deletes Accept-Encoding makes the transport transparently gunzip every reply, changing body and entity headers of non-HTML responses; Rewrite mode strips X-Forwarded-*)")
+		})
+	}
+	if n == 0 {
+		c.Unk(rule, "hostProxy:ReverseProxy-fields", p, hp.Pos(), "no field of the backend-facing ReverseProxy is set in hostProxy (expected at least FlushInterval)")
+	}
+}
+
+// ruleInterimThenFinal simulates, by partial evaluation, WriteHeader(103)
+// followed by WriteHeader(404) on every ResponseWriter implementation of the
+// module: the receiver-field stores reachable in the first call (constants or
+// the status) become the field values of the second call, in which the final
+// status must still be forwarded / published.
+func ruleInterimThenFinal(c *Ctx, p *Prog, rule string) {
+	for _, t := range ResponseWriterImpls(p) {
+		tn := NamedTypeRel(t)
+		fn := p.MethodOf(t, "WriteHeader")
+		if fn == nil || len(fn.Blocks) == 0 || len(fn.Params) < 2 {
+			continue
+		}
+		recv, status := fn.Params[0], fn.Params[1]
+		zero := func(ty types.Type) (constant.Value, bool) {
+			if b, ok := ty.Underlying().(*types.Basic); ok {
+				switch {
+				case b.Info()&types.IsBoolean != 0:
+					return constant.MakeBool(false), true
+				case b.Info()&types.IsInteger != 0:
+					return IntC(0), true
+				case b.Info()&types.IsString != 0:
+					return constant.MakeString(""), true
+				}
+			}
+			return nil, false
+		}
+		mkEnv := func(st int64, fields map[string]constant.Value) Env {
+			return func(v ssa.Value) (constant.Value, bool) {
+				if v == ssa.Value(status) {
+					return IntC(st), true
+				}
+				if base, f, ok := FieldLoad(v); ok && rootIs(base, recv) {
+					if cv, ok := fields[f]; ok {
+						return cv, true
+					}
+					return zero(v.Type())
+				}
+				return nil, false
+			}
+		}
+		// first call: 103
+		env1 := mkEnv(103, map[string]constant.Value{})
+		after := map[string]constant.Value{}
+		for _, b := range fn.Blocks {
+			for _, in := range b.Instrs {
+				st, ok := in.(*ssa.Store)
+				if !ok {
+					continue
+				}
+				base, f, ok := FieldAddrOf(st.Addr)
+				if !ok || !rootIs(base, recv) {
+					continue
+				}
+				if h, _ := (&Walk{Target: func(i ssa.Instruction) bool { return i == in }, Edge: EdgeUnder(env1)}).FromBlock(fn.Blocks[0]); h == nil && !(b == fn.Blocks[0]) {
+					continue
+				}
+				if b == fn.Blocks[0] {
+					// entry block instruction is always reached
+				}
+				if cv, ok := Eval(st.Val, env1); ok {
+					after[f] = cv
+				}
+			}
+		}
+		env2 := mkEnv(404, after)
+		isForward := func(i ssa.Instruction) bool {
+			switch x := i.(type) {
+			case *ssa.Send:
+				return true
+			case *ssa.Select:
+				for _, s := range x.States {
+					if s.Dir == types.SendOnly {
+						return true
+					}
+				}
+			}
+			if cc := CallOf(i); cc != nil {
+				n := CalleeName(cc)
+				if strings.HasSuffix(n, ").WriteHeader") && len(Args(cc)) == 2 {
+					if a := Args(cc); a[0] != ssa.Value(recv) || true {
+						// forwarding the method's own status to another writer
+						if a[1] == ssa.Value(status) {
+							return true
+						}
+					}
+				}
+			}
+			return false
+		}
+		h, _ := (&Walk{Target: isForward, Edge: EdgeUnder(env2)}).FromBlock(fn.Blocks[0])
+		c.Check(rule, tn+":final-after-interim-is-forwarded", p, fn.Pos(), h != nil, "after WriteHeader(103) the state of the writer still lets WriteHeader(404) forward/publish the final status", tn+": after an interim WriteHeader(103) the writer's state ("+fmt.Sprint(after)+") makes WriteHeader(404) forward nothing: the final status is swallowed (the client sees the interim code or an implicit 200)")
+	}
+}
+
+// ruleSharedScratch: a closure that outlives the call that created it (it is
+// returned, stored or handed to another function — an http handler, a
+// ModifyResponse hook) runs once per request, possibly concurrently. Such a
+// closure must not write into byte storage captured from the creating call
+// (a []byte, byte array or bytes.Buffer allocated once outside it): every
+// activation would fill the same memory, and one client is served bytes read
+// for another. Package-level byte buffers are the same hazard.
+func ruleSharedScratch(c *Ctx, p *Prog, rule string, pkgs ...string) {
+	isByteStore := func(t types.Type) bool {
+		for {
+			if pt, ok := t.Underlying().(*types.Pointer); ok {
+				t = pt.Elem()
+				continue
+			}
+			break
+		}
+		switch u := t.Underlying().(type) {
+		case *types.Slice:
+			b, ok := u.Elem().Underlying().(*types.Basic)
+			return ok && b.Kind() == types.Byte
+		case *types.Array:
+			b, ok := u.Elem().Underlying().(*types.Basic)
+			return ok && b.Kind() == types.Byte
+		}
+		n := NamedType(t)
+		return n == "bytes.Buffer" || n == "bufio.Reader" || n == "bufio.Writer" || n == "strings.Builder"
+	}
+	// writes through v (a value derived from captured storage)
+	var writes func(v ssa.Value, depth int) ssa.Instruction
+	writes = func(v ssa.Value, depth int) ssa.Instruction {
+		if depth > 6 {
+			return nil
+		}
+		for _, r := range Refs(v) {
+			switch x := r.(type) {
+			case *ssa.UnOp:
+				if x.Op == token.MUL {
+					if w := writes(x, depth+1); w != nil {
+						return w
+					}
+				}
+			case *ssa.Slice:
+				if w := writes(x, depth+1); w != nil {
+					return w
+				}
+			case *ssa.IndexAddr:
+				for _, u := range Refs(x) {
+					if st, ok := u.(*ssa.Store); ok && st.Addr == ssa.Value(x) {
+						return st
+					}
+				}
+			case *ssa.FieldAddr, *ssa.ChangeType, *ssa.Phi:
+				if w := writes(x.(ssa.Value), depth+1); w != nil {
+					return w
+				}
+			case ssa.CallInstruction:
+				cc := x.Common()
+				if b, ok := cc.Value.(*ssa.Builtin); ok {
+					if (b.Name() == "copy" || b.Name() == "append") && len(cc.Args) > 0 && cc.Args[0] == v {
+						return x
+					}
+					continue
+				}
+				name := CalleeName(cc)
+				short := name[strings.LastIndex(name, ".")+1:]
+				args := Args(cc)
+				for ai, a := range args {
+					if a != v {
+						continue
+					}
+					recvLike := ai == 0 && (cc.IsInvoke() || (cc.StaticCallee() != nil && cc.StaticCallee().Signature.Recv() != nil))
+					switch {
+					case recvLike && (strings.HasPrefix(short, "Write") || short == "Reset" || short == "ReadFrom" || short == "Truncate" || short == "Grow" || strings.HasPrefix(short, "Read") || short == "Next" || short == "Discard" || short == "Flush" || short == "Peek"):
+						if isByteStore(a.Type()) && NamedType(derefT(a.Type())) != "" {
+							return x
+						}
+					case !recvLike && (short == "Read" || short == "ReadFull" || short == "ReadAtLeast" || short == "ReadAt" || short == "CopyBuffer" || short == "PutUvarint" || short == "PutVarint" || strings.HasPrefix(short, "Append") || strings.HasPrefix(short, "PutUint")):
+						return x
+					}
+				}
+			}
+		}
+		return nil
+	}
+	n := 0
+	for _, pk := range pkgs {
+		for _, fn := range p.FuncsIn(pk) {
+			EachInstr(fn, func(i ssa.Instruction) {
+				mc, ok := i.(*ssa.MakeClosure)
+				if !ok {
+					return
+				}
+				cl := mc.Fn.(*ssa.Function)
+				// does the closure outlive / run more than once?
+				escapes := false
+				var follow func(v ssa.Value, d int)
+				follow = func(v ssa.Value, d int) {
+					if d > 4 {
+						return
+					}
+					for _, r := range Refs(v) {
+						switch x := r.(type) {
+						case ssa.CallInstruction:
+							cc := x.Common()
+							if cc.Value == v {
+								if _, isGo := x.(*ssa.Go); isGo && InLoop(x.Block()) {
+									escapes = true
+								}
+								continue // immediate call / go / defer of the literal
+							}
+							if IsCall(x, "(*sync.Once).Do") {
+								continue
+							}
+							escapes = true
+						case *ssa.ChangeType:
+							follow(x, d+1)
+						case *ssa.MakeInterface:
+							follow(x, d+1)
+						case *ssa.Store, *ssa.Return, *ssa.Phi, *ssa.MapUpdate, *ssa.Send:
+							escapes = true
+						}
+					}
+				}
+				follow(mc, 0)
+				if !escapes {
+					return
+				}
+				n++
+				for fi, fv := range cl.FreeVars {
+					if !isByteStore(fv.Type()) || fi >= len(mc.Bindings) {
+						continue
+					}
+					if w := writes(fv, 0); w != nil {
+						c.Bad(rule, "shared-scratch:"+FuncName(cl)+":"+fv.Name(), p, w.Pos(), "the closure "+FuncName(cl)+" outlives the call that creates it (it is returned/stored/registered, so it runs once per request, concurrently) and writes at "+p.Pos(w.Pos())+" into byte storage `"+fv.Name()+"` captured from "+FuncName(fn)+": all activations share that memory, so one client can be served bytes that were read for another")
+					}
+				}
+			})
+			// package-level byte buffers written outside init
+			EachInstr(fn, func(i ssa.Instruction) {
+				for _, op := range i.Operands(nil) {
+					g, ok := (*op).(*ssa.Global)
+					if !ok || !isByteStore(g.Type()) || strings.HasPrefix(fn.Name(), "init") {
+						continue
+					}
+					if v, isV := i.(ssa.Value); isV {
+						if w := writes(v, 0); w != nil {
+							c.Bad(rule, "shared-scratch:global:"+g.Name(), p, w.Pos(), "package-level byte storage "+g.Name()+" is written in "+FuncName(fn)+": concurrent requests share it")
+						}
+					}
+				}
+			})
+		}
+	}
+	c.Check(rule, "shared-scratch:"+strings.Join(pkgs, ","), p, 0, n >= 3, fmt.Sprintf("%d long-lived closures (handlers, hooks, callbacks) inspected: none writes into byte storage captured from its creator, no package-level byte buffer is written", n), fmt.Sprintf("only %d long-lived closures found (expected handlers and hooks): the rule no longer sees the per-request closures", n))
+}
+
+func derefT(t types.Type) types.Type {
+	for {
+		pt, ok := t.Underlying().(*types.Pointer)
+		if !ok {
+			return t
+		}
+		t = pt.Elem()
+	}
+}
+
+// ruleAppResponseCacheKey: the App Engine proxy's GET response cache. The key
+// under which a response is stored and looked up must be one value, an
+// injective encoding of (user, URL): fmt.Sprintf with a constant format that
+// renders both components with %q, never sliced, hashed-and-truncated or
+// otherwise shortened (a helper is followed one level).
+func ruleAppResponseCacheKey(c *Ctx, p *Prog, rule string) {
+	ph := c.need(p, rule, "app.proxyHandler")
+	if ph == nil {
+		return
+	}
+	rd := c.UniqueCall(rule, p, ph, false, ModPath+"/app.readCachedResponse")
+	wr := c.UniqueCall(rule, p, ph, false, ModPath+"/app.cacheResponse")
+	if rd == nil || wr == nil {
+		return
+	}
+	kr, kw := Args(CallOf(rd))[1], Args(CallOf(wr))[1]
+	c.Check(rule, "response-cache:lookup-and-store-use-one-key", p, wr.Pos(), SameValue(kr, kw), "the cached response is stored under the very key it is looked up with", "the response cache is written under "+PathOf(kw)+" but read under "+PathOf(kr))
+	// expand the key to the expressions that can produce it
+	var sprintfs []*ssa.Call
+	bad := ""
+	var expand func(v ssa.Value, depth int)
+	expand = func(v ssa.Value, depth int) {
+		for _, r := range Roots(v) {
+			call, ok := r.(*ssa.Call)
+			if !ok {
+				if ex, isE := r.(*ssa.Extract); isE {
+					call, ok = ex.Tuple.(*ssa.Call)
+				}
+			}
+			if !ok {
+				bad = "the key can be " + PathOf(r) + " (" + fmt.Sprintf("%T", r) + ")"
+				continue
+			}
+			if CalleeName(call.Common()) == "fmt.Sprintf" {
+				sprintfs = append(sprintfs, call)
+				continue
+			}
+			if f := call.Common().StaticCallee(); f != nil && len(f.Blocks) > 0 && depth < 2 && strings.HasPrefix(FuncName(f), "app") {
+				for _, ret := range Returns(f) {
+					expand(ReturnValue(ret, 0), depth+1)
+				}
+				continue
+			}
+			bad = "the key is produced by " + CalleeName(call.Common())
+		}
+	}
+	expand(kr, 0)
+	for _, sp := range sprintfs {
+		format, isC := ConstString(sp.Call.Args[0])
+		nq := strings.Count(format, "%q")
+		nverbs := strings.Count(format, "%") - 2*strings.Count(format, "%%")
+		nargs := -1
+		if len(sp.Call.Args) > 1 {
+			for _, r := range Roots(sp.Call.Args[1]) {
+				if sl, isS := r.(*ssa.Slice); isS {
+					if arr, isA := sl.X.(*ssa.Alloc); isA {
+						if at, isArr := derefT(arr.Type()).Underlying().(*types.Array); isArr {
+							nargs = int(at.Len())
+						}
+					}
+				}
+			}
+		}
+		if !isC || nq != 2 || nverbs != 2 || nargs != 2 {
+			bad = fmt.Sprintf("format %q with %d arguments does not render exactly the two components (user, URL) with %%q", format, nargs)
+		}
+	}
+	if len(sprintfs) == 0 && bad == "" {
+		bad = "no fmt.Sprintf produces the key"
+	}
+	c.Check(rule, "response-cache:key-injective", p, rd.Pos(), bad == "", "the key is fmt.Sprintf(\"…%q…%q\", user, URL) on every path: distinct (user, URL) pairs have distinct keys", "the response-cache key is not an injective encoding of (user, URL): "+bad+": two different requests can share one cache entry, and the second client is served the response produced for the first")
+	// components: the user's e-mail and the request URL
+	sawUser, sawURL := false, false
+	SliceBack(kr, func(v ssa.Value) bool {
+		if call, ok := v.(*ssa.Call); ok && CalleeName(call.Common()) == "(*net/url.URL).String" {
+			if PathOf(call.Call.Args[0]) == P(ph, 4)+".URL" {
+				sawURL = true
+			}
+		}
+		if _, f, ok := FieldLoad(v); ok && f == "Email" {
+			sawUser = true
+		}
+		return true
+	})
+	c.Check(rule, "response-cache:key-components", p, rd.Pos(), sawUser && sawURL, "the key is built from the authenticated user's e-mail and the full request URL", fmt.Sprintf("the response-cache key does not depend on both the user e-mail (%v) and r.URL.String() (%v): responses are shared across users or URLs", sawUser, sawURL))
+	// only GETs are served from / stored into the cache
+	for _, site := range []struct {
+		name string
+		in   ssa.Instruction
+	}{{"lookup", rd}, {"store", wr}} {
+		okg := false
+		for _, g := range GuardingIfs(site.in) {
+			cond, trueSucc := BoolTest(g.If)
+			if bo, ok := cond.(*ssa.BinOp); ok && bo.Op == token.EQL && g.Succ == trueSucc {
+				s1, c1 := ConstString(bo.X)
+				s2, c2 := ConstString(bo.Y)
+				if (c1 && s1 == "GET") || (c2 && s2 == "GET") {
+					okg = true
+				}
+			}
+		}
+		c.Check(rule, "response-cache:"+site.name+"-only-for-GET", p, site.in.Pos(), okg, "the cache "+site.name+" happens only for GET requests", "the cache "+site.name+" is not guarded by r.Method == GET: the answer to a POST/PUT is served from (or stored into) the cache")
+	}
+}
+
+// ruleLoopSharedCapture: a goroutine started inside a loop must not capture a
+// variable that lives outside the loop and is reassigned by it (the accepted
+// connection, the request ID): the next iteration overwrites it while the
+// goroutine of the previous one still uses it.
+func ruleLoopSharedCapture(c *Ctx, p *Prog, rule string, min int, pkgs ...string) {
+	n := 0
+	for _, pk := range pkgs {
+		for _, fn := range p.FuncsIn(pk) {
+			EachInstr(fn, func(i ssa.Instruction) {
+				g, ok := i.(*ssa.Go)
+				if !ok || !InLoop(g.Block()) {
+					return
+				}
+				n++
+				mc, ok := g.Call.Value.(*ssa.MakeClosure)
+				if !ok {
+					return // go f(args…): the arguments are evaluated (copied) by this iteration
+				}
+				cl := mc.Fn.(*ssa.Function)
+				for bi, b := range mc.Bindings {
+					al, ok := b.(*ssa.Alloc)
+					if !ok || InLoop(al.Block()) {
+						continue
+					}
+					for _, r := range Refs(al) {
+						if st, isSt := r.(*ssa.Store); isSt && st.Addr == ssa.Value(al) && InLoop(st.Block()) {
+							name := "?"
+							if bi < len(cl.FreeVars) {
+								name = cl.FreeVars[bi].Name()
+							}
+							c.Bad(rule, "loop-shared-capture:"+FuncName(fn)+":"+name, p, g.Pos(), "the goroutine started per iteration in "+FuncName(fn)+" captures `"+name+"`, which is declared outside the loop and reassigned at "+p.Pos(st.Pos())+" on every iteration: while one goroutine is still setting up (or running), the next iteration replaces the value under it, so two goroutines serve the same connection/request and one is never served")
+							return
+						}
+					}
+				}
+			})
+		}
+	}
+	c.Check(rule, "loop-shared-capture:"+strings.Join(pkgs, ","), p, 0, n >= min, fmt.Sprintf("%d goroutine(s) started from loops inspected: each captures only variables of its own iteration (or objects the loop never reassigns)", n), fmt.Sprintf("only %d goroutines started from loops found, expected at least %d", n, min))
+}
+
+// rulePlainSingleHostProxy: fn builds its pass-through/back-end facing proxy
+// with httputil.NewSingleHostReverseProxy and sets only the allowed fields.
+func rulePlainSingleHostProxy(c *Ctx, p *Prog, rule, fnName string, allowed map[string]string) {
+	fn := c.need(p, rule, fnName)
+	if fn == nil {
+		return
+	}
+	ctor := Calls(fn, "net/http/httputil.NewSingleHostReverseProxy")
+	lits := 0
+	for _, f := range WithClosures(fn) {
+		EachInstr(f, func(i ssa.Instruction) {
+			if al, ok := i.(*ssa.Alloc); ok && NamedType(derefT(al.Type())) == "net/http/httputil.ReverseProxy" {
+				lits++
+			}
+		})
+	}
+	c.Check(rule, fnName+":stock-single-host-proxy", p, fn.Pos(), len(ctor) == 1 && lits == 0, "the proxy is httputil.NewSingleHostReverseProxy(target): the stock Director keeps Host, method, path, query, headers and X-Forwarded-* handling", fmt.Sprintf("%s does not build its proxy with exactly one httputil.NewSingleHostReverseProxy call (%d calls, %d hand-built ReverseProxy values): a hand-built proxy (Rewrite/SetURL, custom Director) changes Host and forwarding headers of passed-through requests", fnName, len(ctor), lits))
+	for _, f := range WithClosures(fn) {
+		EachInstr(f, func(i ssa.Instruction) {
+			st, ok := i.(*ssa.Store)
+			if !ok {
+				return
+			}
+			base, fld, ok := FieldAddrOf(st.Addr)
+			if !ok || NamedType(derefT(base.Type())) != "net/http/httputil.ReverseProxy" {
+				return
+			}
+			why, okf := allowed[fld]
+			c.Check(rule, fnName+":ReverseProxy."+fld, p, st.Pos(), okf, "allowed override: "+why, "ReverseProxy."+fld+" is overridden in "+fnName+": passed-through requests/responses no longer take the stock path")
+		})
+	}
+}
+
+// NamedTypesIn lists the named struct types declared in module package rel.
+func (p *Prog) NamedTypesIn(rel string) []*types.Named {
+	var out []*types.Named
+	for ip, pk := range p.ModPkgs {
+		if Rel(ip) != rel {
+			continue
+		}
+		scope := pk.Types.Scope()
+		for _, name := range scope.Names() {
+			if tn, ok := scope.Lookup(name).(*types.TypeName); ok {
+				if named, ok := tn.Type().(*types.Named); ok {
+					if _, isStruct := named.Underlying().(*types.Struct); isStruct {
+						out = append(out, named)
+					}
+				}
+			}
+		}
+	}
+	return out
+}
+
+// MethodsOf returns the SSA functions of the methods declared on named.
+func (p *Prog) MethodsOf(named *types.Named) []*ssa.Function {
+	var out []*ssa.Function
+	for i := 0; i < named.NumMethods(); i++ {
+		if f := p.SSA.FuncValue(named.Method(i)); f != nil {
+			out = append(out, f)
+		}
+	}
+	return out
 }
